@@ -627,6 +627,7 @@ impl Property for C20 {
                 class: "violation".into(),
                 case: json!({"cross_process": keys}),
                 detail: format!("the reference simulation produced different traces in different worker processes: {keys:?}"),
+                shard: None,
             });
         }
     }
